@@ -106,6 +106,17 @@ def canon_spec(o):
     return tuple(tuple(x) if isinstance(x, list) else x for x in o)
 
 
+def corpus_lists():
+    """Minimised past disagreements / corner cases (corpus/C16/*.json); they run first."""
+    out = []
+    d = os.path.join(common.VERIF, 'corpus', 'C16')
+    for fn in sorted(os.listdir(d)) if os.path.isdir(d) else []:
+        if fn.endswith('.json'):
+            for l in json.load(open(os.path.join(d, fn))).get('lists', []):
+                out.append([canon_spec(o) for o in l])
+    return out
+
+
 def mk_obj(o):
     from bfg9000 import options as opts
     from bfg9000.path import Path
@@ -318,7 +329,7 @@ def stage_w_tables(rep, rng, n, fixed):
     calls, impl = [], []
     with Tools() as t:
         out = t.output()
-        singles = [[o] for o in finite_opts()]
+        singles = corpus_lists() + [[o] for o in finite_opts()]
         singles += [[('define', 'X', v)] for v in VALUES] + [[('include', d, s)] for d in DIRS for s in (False, True)]
         singles += [[('lib', (k, '/l/lib', b))] for k in ('static', 'shared') for b in BASENAMES]
         lists = singles + [gen_opts(rng, rep, rng.choice(['cc', 'cc', 'ld', 'ld', 'mixed'])) for _ in range(n)]
@@ -364,7 +375,7 @@ def stage_w_optlist(rep, rng, n, exhaustive):
                 out.append(canon_spec(ids[id(o)]))
         return out
 
-    cases = []
+    cases = [(l, []) for l in corpus_lists()] + [(l[:1], l[1:]) for l in corpus_lists()]
     for _ in range(n):
         cases.append((gen_opts(rng, rep, 'mixed'), gen_opts(rng, None, 'mixed')))
     if exhaustive:
@@ -747,7 +758,9 @@ def stage_oracle(rep, rng, cs, thorough, budget=1):
                     fail('a warning is not turned into an error', spec, fl, tool)
                 continue
             if rc != 0:
-                fail('flags rejected by the compiler (exit %d: %s)' % (rc, err.strip()[-200:]), spec, fl, tool)
+                what = ('the effect probe (%s) does not compile with these flags' % open(os.path.join(cs.root, payload)).read()
+                        .split('\n')[0] if kind == 'compile' else 'flags rejected by the compiler')
+                fail('%s (exit %d: %s)' % (what, rc, err.strip()[-200:]), spec, fl, tool)
                 continue
             if kind == 'macros':
                 m = macros(out)
